@@ -195,6 +195,10 @@ def run(ctx):
     r10 = ctx.rule("C10.R10", "the debug log that records a rejected attribute name writes within its buffer whatever the name's length")
     check_logging_bounded(P, r10)
 
+    # ------------------------------------------------------------ R11
+    r11 = ctx.rule("C10.R11", "the joined value of a list attribute (tls.peer_names) is built in a buffer that holds every element, every separator and the terminator")
+    check_join_size(P, r11)
+
     # ------------------------------------------------------------ R9
     r9 = ctx.rule("C10.R9", "a TCP option value the kernel interface cannot represent is rejected before it is stored (no unguarded narrowing)")
     eng9 = B.Engine(P)
@@ -235,6 +239,78 @@ def run(ctx):
 
 
 # ---------------------------------------------------------------------------
+def check_join_size(P, rule):
+    """A join-style helper measures first (a loop adding strlen of every element to a counter, then a correction), allocates
+    that many bytes and then copies every element, separated by one character, into the buffer.  Whatever the shape of the
+    copy loop, a terminated string of n >= 1 elements with separators between them needs  sum(strlen) + (n - 1) + 1  bytes.
+    The measure side is read off the source: the counter's corrections must add up to at least n for every n >= 1.
+    (A special-purpose lemma: the general proof needs a loop invariant over a sum, which the difference-constraint engine
+    cannot express.  Functions that do not have this shape are not decided by it.)"""
+    nrec = 0
+    for f in P.fns_in("common/slist.c") + P.fns_in("common/util.c"):
+        allocs = []
+        for nid, n in f.nodes.items():
+            if n["k"] == "call" and n.get("callee") in ("ut_malloc", "ut_calloc", "malloc", "calloc") and n["args"]:
+                a = f.nodes[f._strip0(n["args"][-1] if n.get("callee") == "calloc" else n["args"][0])]
+                if a["k"] == "ref" and a.get("dk") == "local":
+                    allocs.append((nid, a.get("did"), a["name"]))
+        for anid, did, vname in allocs:
+            strlen_adds, corr, unknown = 0, [], False
+
+            def lin(x):
+                """(coefficient of the collection's length field, constant) or None"""
+                x = f._strip0(x)
+                m = f.nodes[x]
+                cv = C.const_of(f, x)
+                if cv is not None:
+                    return (0, cv)
+                if m["k"] == "member" and m.get("field") in ("len", "num", "count", "num_elems", "size"):
+                    return (1, 0)
+                if m["k"] == "bin" and m["op"] in ("+", "-"):
+                    a, b = lin(m["l"]), lin(m["r"])
+                    if a is None or b is None:
+                        return None
+                    sg = 1 if m["op"] == "+" else -1
+                    return (a[0] + sg * b[0], a[1] + sg * b[1])
+                return None
+            for m in f.nodes.values():
+                if m["k"] == "decl":
+                    for v in m["vars"]:
+                        if v.get("did") == did and v.get("init") is not None:
+                            l0 = lin(v["init"])
+                            if l0 is None:
+                                unknown = True
+                            else:
+                                corr.append(l0)
+                elif m["k"] == "bin" and m["op"] in ("+=", "=", "-=") and f.nodes[f._strip0(m["l"])].get("did") == did and f.nodes[f._strip0(m["l"])]["k"] == "ref":
+                    r = f.nodes[f._strip0(m["r"])]
+                    if m["op"] == "+=" and r["k"] == "call" and r.get("callee") in ("strlen", "__builtin_strlen"):
+                        strlen_adds += 1
+                        continue
+                    l0 = lin(m["r"])
+                    if l0 is None or m["op"] == "=":
+                        unknown = True
+                    else:
+                        corr.append(l0 if m["op"] == "+=" else (-l0[0], -l0[1]))
+            copies = [c for c in f.calls() if f.nodes[c].get("callee") in ("strcpy", "stpcpy", "strcat", "__builtin_strcpy", "__builtin_stpcpy")]
+            seps = [e for b, i, e, lhs, rhs, op in f.stores() if op == "=" and rhs is not None and f.nodes[f._strip0(lhs)]["k"] in ("index", "un")
+                    and f.nodes[f._strip0(rhs)]["k"] == "ref" and f.nodes[f._strip0(rhs)].get("dk") == "param" and "char" in (f.nodes[f._strip0(rhs)].get("t") or "")]
+            if strlen_adds != 1 or not copies or not seps or unknown:
+                continue        # not the measure-then-fill shape
+            nrec += 1
+            rule.instance("%s: %s bytes for the joined string" % (f.qname, vname))
+            a = sum(x[0] for x in corr)
+            c = sum(x[1] for x in corr)
+            if a >= 1 and (a - 1) + c >= 0:
+                rule.ok("%s allocates sum(strlen) + %d*n%+d bytes: room for n - 1 separators and the terminator" % (f.qname, a, c), "measure/fill agreement")
+            else:
+                rule.violation("%s:joined-size" % f.name, "%s allocates sum(strlen) + %d*n%+d bytes for n elements joined by a separator: the terminated result needs "
+                               "sum(strlen) + n, so the last byte is written past the end of the heap block" % (f.name, a, c), loc=f.loc(anid))
+    if nrec < 1:
+        rule.note("no join-style helper of the measure-then-fill shape found: not decided here")
+    return nrec
+
+
 def check_logging_bounded(P, rule):
     """R10: an attribute name (however long) is also handed to the debug log before it is rejected; every write of the
     log formatter is within its buffer - including sizes computed as unsigned differences, which must not wrap"""
